@@ -74,7 +74,7 @@ DISCOVER = os.environ.get("VERIF_C20_DISCOVER", "")
 
 def lengths(tname: str, tier: str) -> List[int]:
     if tname == "Time_Period":
-        return list(range(1, 12)) if tier == "quick" else list(range(1, 14))
+        return list(range(1, 12)) if tier == "quick" else list(range(1, 13))    # 13: 8-digit numbers leave the SQL model
     if tname == "Duration":
         return [1, 2, 3]
     if tname == "Time":
@@ -309,7 +309,8 @@ def analyse_task(task: Tuple[str, str, str, bool, Tuple[int, str], List[str]]) -
     decls = smt.Decls()
     sq = _Sql(decls=decls)
     sq.max_paths = 60000
-    chars = [decls.const(f"c{i}", smt.INT) for i in range(n)]
+    sq.max_int_digits = 8
+    chars =[decls.const(f"c{i}", smt.INT) for i in range(n)]
     names = [c.sx for c in chars]
     pre = L.domain(tname, chars) + variant_pre(variant, chars)
     sq.assume = list(pre)
@@ -570,6 +571,8 @@ def main() -> None:  # noqa: C901
                                            reverse=True)[:5]
     chk.extra["inlined_python_functions"] = sorted(set().union(*[set(r.get("inlined", [])) for r in results.values()])) if results else []
     chk.extra["external_contracts"] = pycstr.CONTRACTS
+    import inspect
+    chk.extra["proof_domain_source"] = inspect.getsource(L.domain)       # the domain is C19's: recorded as used in this run
     for (kind, tname, role, nullable), prog in programs.items():
         if only and only not in f"{kind}::{tname}::{role}":
             continue
@@ -631,8 +634,10 @@ def main() -> None:  # noqa: C901
     chk.assume("character domain: code points 32..126; string lengths per type as listed in the obligations (every documented "
                "spelling is shorter than the bound, Date forms with fraction / timezone and Time forms with two times of day "
                "are only in the bounded tier)")
-    chk.assume("proof domain D_P (as C19): Time_Period strings whose numeric fields hold no sign / blank / '.' / '_' / exponent / "
-               "hex characters; the complement (DuckDB's lenient VARCHAR->INTEGER cast) is enumerated in the bounded tier")
+    chk.assume("proof domain D_P = checks/C19.py:domain (source recorded in coverage.proof_domain_source): four leading digits "
+               "denote a year 1000..9999; Time_Period strings whose numeric fields hold no sign / blank / '.' / '_' / exponent / "
+               "hex characters; the complement (years below 1000, DuckDB's lenient VARCHAR->INTEGER cast) is enumerated in the "
+               "bounded tier")
     chk.assume("DuckDB evaluates the extracted scalar SQL as vc.sqlvc / vc.loadvc model it; CPython evaluates the validators as "
                "vc.pyvc / vc.pycstr model them, with the external contracts of vc.pycstr.CONTRACTS (both models compared with "
                "the real code on concrete strings in this run, every counter-model replayed)")
@@ -727,7 +732,8 @@ def report(chk: Check, fn: str, oid: str, clause: str, bad: Dict[str, Tuple[Any,
 def cell_level(chk: Check, cellmap: Dict[str, Tuple[str, Any]], programs: Dict[Any, loadvc.LoadProgram], pool: Any,
                known: Dict[str, Any]) -> None:
     """(1a) exhaustive families at cell level: real per-cell Python function vs the extracted statements in the real DuckDB."""
-    years = [2020, 2021, 2015, 1900] if chk.tier == "quick" else [2020, 2021, 2015, 1900, 2000, 2019, 1800, 1799, 9999, 0, 1]
+    # (years below 1000 are outside the proof domain: year 0000 is enumerated here in both tiers)
+    years = [2020, 2021, 2015, 1900, 0] if chk.tier == "quick" else [2020, 2021, 2015, 1900, 0, 2000, 2019, 1800, 1799, 9999, 1, 999]
     fams = {"Time_Period": K.period_family(years) + comp_family(chk.tier), "Date": K.date_family(years[:3] + [1799, 1800]),
             "Time": K.time_family(), "Duration": K.duration_family()}
     for tname, strs in fams.items():
